@@ -1,11 +1,11 @@
 SPECIFICATION Spec
 CONSTANTS
   Pair = "MLFEM"
-  MaxDepth = 4
+  MaxDepth = 3
   MaxCopies = 2
   MaxEdits = 1
   MaxReopens = 1
-  EditOps = {"channels", "timing_mark"}
+  EditOps = {"channels"}
   CopyModes = {"plain-same", "mask-same", "extent-same", "plain-other", "extent-other"}
   MaskNames = {"lo", "mid"}
   Focus = TRUE
